@@ -60,6 +60,7 @@ package litefs
 //@   on call DB.SetHWM assert wtOK && !hwmSet && arg1 == hwmVal && arg0 == old(s.dbs[name]) ; then hwmSet = true
 //@   loop 1 invariant 0 <= n && n <= MaxBackupLTXFileN && opened == n && len(rdrs) == n && txID == remotePos.TXID + 1 + ltx.TXID(n) &&
 //@        ltx.TXID(n) <= localPos.TXID - remotePos.TXID && closed == 0 && wtN == 0 && !snap && !hwmSet && !missing && allFiles(rdrs) && (len(rdrs) == 0 || alive(rdrs))
+//@   thorough  streamBackupDB/loop1/step#1.12
 //@   on return assert closed == opened
 // FINDING (kept): when WriteTx fails nothing closes the read end of the pipe; the BackupClient interface does not
 // promise that WriteTx drains or closes r, so the compaction goroutine may stay blocked in pw.Write for ever.
@@ -183,20 +184,20 @@ package litefs
 // upload or a successful restore.
 //@ pred subOK(c *ChangeSetSubscriber, s *Store) = c != nil && c.dirtySet != nil && c.store == s
 //@ func (s *Store) DBs [C14]
-//@   requires  s != nil && noNilDBs(s)
-//@   loop 1 invariant noNilDBs(s) && alive(a) && (forall i int :: 0 <= i && i < len(a) ==> a[i] != nil)
-//@   ensures   forall i int :: 0 <= i && i < len(result) ==> result[i] != nil
+//@   requires  s != nil
+//@   loop 1 invariant alive(a) && (old(noNilDBs(s)) ==> noNilDBs(s) && (forall i int :: 0 <= i && i < len(a) ==> a[i] != nil))
+//@   proves    old(noNilDBs(s)) ==> (forall i int :: 0 <= i && i < len(result) ==> result[i] != nil)
 //@   nopanic
 
 //@ func (s *ChangeSetSubscriber) DirtySet [C14]
-//@   requires  s != nil && s.dirtySet != nil
+//@   requires  s != nil
 //@   modifies  s.dirtySet
 //@   ensures   result == old(s.dirtySet) && s.dirtySet != nil && s.dirtySet != old(s.dirtySet)
 //@   proves    fresh(s.dirtySet)
 //@   nopanic
 
 //@ func (s *Store) streamBackup [C14]
-//@   requires  storeBackupWF(s) && noNilDBs(s) && s.changeSetSubscribers != nil && ctx != nil && storeSubscriberCountMetric != nil
+//@   requires  storeBackupWF(s) && noNilDBs(s) && s.changeSetSubscribers != nil && ctx != nil && storeSubscriberCountMetric != nil && s.Exit != nil && storeDBCountMetric != nil
 //@   ghost phase int = 0
 //@   ghost pm bool = false
 //@   ghost sbOK bool = false
